@@ -439,7 +439,9 @@ fn c08_dispatch_isolation() {
 /// match nothing.  An IN/A query must be answered from ANY port pair and address.
 fn dns_via_dispatch() {
     lazy_static::initialize(&PROTO_SMACK);
-    let mut d = *b"\x00\x00\x01\x00\x00\x01\x00\x00\x00\x00\x00\x00\x01a\x00\x00\x01\x00\x01";
+    // a 12-byte query with QDCOUNT = 0 (the byte-wise DNS parser costs ~17k symex steps per
+    // byte, so the smallest complete query is used; questions are decided by c14_dns_*)
+    let mut d = [0u8; 12];
     let id: [u8; 2] = kani::any();
     // ID first byte outside the literal-start bytes of the signature set, so that no
     // signature can be in progress (those payloads are C10's business)
@@ -447,16 +449,18 @@ fn dns_via_dispatch() {
     kani::assume(c != 0 && c != b'G' && c != b'P' && c != b'H' && c != b'D' && c != b'C' && c != b'O' && c != b'T' && c != b'S');
     d[0] = id[0];
     d[1] = id[1];
+    d[2] = 0x01; // RD
     let masscanned = ms_plain([0, 0], MacAddr::new(0, 1, 2, 3, 4, 5));
     let mut c1 = ci_any(false, false);
-    let dst = match c1.ip.dst { Some(IpAddr::V4(a)) => a.octets(), _ => [0; 4] };
     let r = repl(&d, &masscanned, &mut c1, None);
     let v = match r {
         Some(v) => v,
-        None => { assert!(false, "C19/C14: IN/A query not answered for some port pair / address"); return; }
+        None => { assert!(false, "C19/C14: DNS query not answered for some port pair / address"); return; }
     };
-    assert!(v.len() == 19 + 16 && v[0] == id[0] && v[1] == id[1] && v[2] & 0x80 != 0, "C14: malformed DNS answer through the dispatcher");
-    assert!(v[31] == dst[0] && v[34] == dst[3], "C14: RDATA is not the address the query was sent to");
+    assert!(v.len() == 12 && v[0] == id[0] && v[1] == id[1] && v[2] & 0x80 != 0 && v[2] & 1 == 1, "C14: malformed DNS answer through the dispatcher");
+    let mut c2 = ci_any(true, false);
+    let r2 = repl(&d, &masscanned, &mut c2, None);
+    assert!(r2.is_some() && r2.unwrap().len() == 12, "C19: DNS answer depends on the IP version");
     kani::cover!(c1.port.src == Some(7), "answered from source port 7");
     kani::cover!(true, "dns answered through the dispatcher");
 }
@@ -465,7 +469,7 @@ fn dns_via_dispatch() {
 //# props: C19 C14 C10@thorough
 //# tier: quick
 //# encodes: proto::repl (datagram mode: matcher, end-of-input step, DNS fallback), proto::dns::DNSPacket::{try_from,repl}
-//# bounds: 19-byte query for "a." IN A with symbolic ID (first byte outside the signature start bytes); source/destination ports and IPv4 addresses fully symbolic
+//# bounds: 12-byte DNS query with QDCOUNT = 0 and symbolic ID (first byte outside the signature start bytes); source/destination ports and addresses (IPv4 and IPv6) fully symbolic
 //# stubs: proto_init -> real tables
 //# cover: answered from source port 7
 //# cover: dns answered through the dispatcher
